@@ -1,17 +1,22 @@
 #!/bin/bash
 # usage: tools/eval_seeded.sh <dir-with-patch.diff-and-demo.py> <check id>...
-# Confirms a seeded change (applies to /repo, suite still green, demo fails with / passes without) and runs the named checks against it.
+# Confirms a seeded change and runs the named checks against it.  The change is applied to a scratch git worktree of /repo
+# (under /tmp, removed afterwards), never to /repo itself; the checks are pointed at it through VERIF_REPO.
+# SKIP_SUITE=1 skips the (slow) test-suite run.
 set -u
 D="$(readlink -f "$1")"; shift
 cd /verif
-git -C /repo diff --quiet || { echo "/repo dirty" >&2; exit 9; }
-echo "--- demo on unchanged tree"; (cd /repo && /venv/bin/python -W ignore "$D/demo.py" 2>&1 | tail -2); echo "exit=$?"
-git -C /repo apply "$D/patch.diff" || { echo "patch does not apply"; exit 9; }
-trap 'git -C /repo checkout -- .' EXIT
-echo "--- test suite with the change"; (cd /repo && /venv/bin/python -m pytest -q -p no:cacheprovider --timeout=900 2>&1 | tail -1)
-echo "--- demo with the change"; (cd /repo && /venv/bin/python -W ignore "$D/demo.py" 2>&1 | tail -3; echo "exit=${PIPESTATUS[0]}")
+WT="$(mktemp -d /tmp/seedwt-XXXXXX)"; rmdir "$WT"
+git -C /repo worktree add -q --detach "$WT" HEAD || exit 9
+trap 'git -C /repo worktree remove --force "$WT" 2>/dev/null; rm -rf "$WT"' EXIT
+echo "--- demo on unchanged tree"; (cd "$WT" && PYTHONPATH="$WT" /venv/bin/python -W ignore "$D/demo.py" 2>&1 | tail -2; echo "exit=${PIPESTATUS[0]}")
+git -C "$WT" apply "$D/patch.diff" || { echo "patch does not apply"; exit 9; }
+if [ -z "${SKIP_SUITE:-}" ]; then
+  echo "--- test suite with the change"; (cd "$WT" && PYTHONPATH="$WT" /venv/bin/python -m pytest -q -p no:cacheprovider --timeout=900 2>&1 | tail -1)
+fi
+echo "--- demo with the change"; (cd "$WT" && PYTHONPATH="$WT" /venv/bin/python -W ignore "$D/demo.py" 2>&1 | tail -3; echo "exit=${PIPESTATUS[0]}")
 for c in "$@"; do
   echo "--- check $c with the change"
-  VERIF_EVIDENCE_DIR=/tmp/verif-mut-evidence ./run $c 2>&1 | grep -E "VIOLATION|counterexample|ENGINE|tier=" | head -4 | cut -c1-400
+  VERIF_REPO="$WT" VERIF_EVIDENCE_DIR="$(mktemp -d /tmp/verif-mut-evidence-XXXXXX)" ./run $c 2>&1 | grep -E "VIOLATION|counterexample|ENGINE|tier=" | head -4 | cut -c1-400
   echo "check_exit=${PIPESTATUS[0]}"
 done
